@@ -124,6 +124,24 @@ class Poly:
                     r = r + Poly({nm: c * e})
         return r
 
+    def subs(self, name, value):
+        """replace the variable by a polynomial."""
+        vid = var_id(name)
+        r = Poly()
+        for m, c in self.t.items():
+            e = 0
+            rest = []
+            for v, k in m:
+                if v == vid:
+                    e = k
+                else:
+                    rest.append((v, k))
+            term = Poly({tuple(rest): c})
+            if e:
+                term = term * (value ** e)
+            r = r + term
+        return r
+
     def subs_zero(self, names):
         ids = {var_id(n) for n in names}
         return Poly({m: c for m, c in self.t.items() if not any(v in ids for v, e in m)})
@@ -264,6 +282,12 @@ class Rat:
 
     def __rtruediv__(self, o):
         return _rat(o) / self
+
+    def subs(self, name, value):
+        """replace a variable by a polynomial (or constant)."""
+        if not isinstance(value, Poly):
+            value = Poly.const(value)
+        return Rat(self.n.subs(name, value), self.d.subs(name, value))
 
     def is_zero(self):
         return self.n.is_zero()
